@@ -329,6 +329,7 @@ SCHEMA = {
     27: ("gplat gplon gpalt", ["latitude", "longitude", "altitude"]),
     25: ("keyrec", [("flags", "protocol", "algorithm", "key")]),
     42: ("apl", ["items"]),
+    11: ("a4s wproto wports", ["address", "protocol", "bitmap"]),
     250: ("nnr d48 d16 mac d16 ercode b64opt", ["algorithm", "time_signed", "fudge", "mac", "original_id", "error", "other"]),
     # composite kinds take several constructor arguments / attributes
     45: ("d8 gwi b64e", ["precedence", ("gateway_type", "algorithm", "gateway"), "key"]),
@@ -343,7 +344,7 @@ SCHEMA = {
     16: ("txt", ["strings"]), 99: ("txt", ["strings"]), 258: ("txt", ["strings"]), 56: ("txt", ["strings"]),
     261: ("txt", ["strings"]), 262: ("txt", ["strings"]),
 }
-MAXV = {"d48": 2**48 - 1, "d1": 1, "o16": 65535, "d8": 255, "d16": 65535, "d32": 2**32 - 1, "ttl": 2**32 - 1, "i8": 255, "i16": 65535}
+MAXV = {"wproto": 255, "d48": 2**48 - 1, "d1": 1, "o16": 65535, "d8": 255, "d16": 65535, "d32": 2**32 - 1, "ttl": 2**32 - 1, "i8": 255, "i16": 65535}
 # signature times around day / month / leap-year / century boundaries and the ends of the 32-bit range
 SIGTIMES = [0, 1, 59, 60, 3599, 3600, 86399, 86400, 68169599, 68169600, 951782399, 951782400, 951868799, 951868800,
             1709164800, 1709251199, 1709251200, 2**31 - 1, 2**31, 4107542399, 4107542400, 4294967295]
@@ -395,6 +396,16 @@ def gen_field(rng, kind):
             if t in ("", "-", "+", ".", "-.", "+."):
                 t = "1"
         return t.encode()
+    if kind == "a4s":
+        return gen_field(rng, "a4")
+    if kind == "wports":
+        r = rng.random()
+        if r < 0.15:
+            return b""
+        n = rng.choice([1, 1, 2, 3, 4, 11, 40]) if r < 0.9 else rng.choice([100, 200])
+        b = bytearray(rng.choice([0, 0, 0, 1, 0x80, 0x41, 0xFF, rng.randrange(256)]) for _ in range(n))
+        b[-1] = b[-1] or rng.choice([1, 0x80, 0x10])
+        return bytes(b)
     if kind == "apl":
         items = []
         for _ in range(rng.choice([0, 1, 1, 2, 3, 5])):
@@ -540,6 +551,11 @@ def schema_cases(ctx):
         for dt in (0, 1, 2, 3, 4, 5, 255, 256):
             for n in sorted({1, 2, DS_LEN.get(dt, 7), DS_LEN.get(dt, 7) + 1}):
                 yield "rd-from-text", [41, rdtype, enc("60485 %s %d %s" % (rng.choice(["5", "8", "RSASHA1", "ED25519"]), dt, "ab" * n)), [None, 1, None]]
+    # WKS: numeric protocol / ports (names are resolved by the system's databases: outside the model)
+    for t in ("10.0.0.1 6", "10.0.0.1 6 ", "10.0.0.1 6 0", "10.0.0.1 6 7 0 7", "10.0.0.1 6 65535", "10.0.0.1 6 65536", "10.0.0.1 256 1", "10.0.0.1 06 08",
+              '"10.0.0.1" "6" "25"', "10.0.0.1 6 25 ; smtp", "10.0.0.1 6 ( 25\n 80 )", "10.0.0.1", "10.0.0 6 1", "10.0.0.1 6 \\050\\053",
+              "10.0.0.1 99999999999999999999 1", "10.0.0.1 6 8191 8192 16 15"):
+        yield "rd-from-text", [41, 11, enc(t), [None, 1, None]]
     # APL: the shapes of an item
     for t in ("1:10.0.0.0/8", "!1:10.0.0.0/8", '"1:10.0.0.0/8"', "!", "1", "1:", "1:/", "1:1.2.3.4", "1:1.2.3.4/", "1:1.2.3.4/33", "2:::/0", "2:::/129",
               "2:2001:db8::1/128", "3:/0", "3:0a/8", "3:0A/8", "3:0g/8", "3:0/8", "65536:00/8", "-1:00/8", "+1:1.2.3.4/+8", "1 :1.2.3.4/8",
@@ -787,6 +803,20 @@ def in_model(kind, case):
         return False  # str.isdigit() / int() of non-ASCII text
     if case[0] == 57 and any(c > 127 for c in (case[1] if isinstance(case[1], (bytes, list)) else b"")):
         return False  # str.upper() / isdecimal() of non-ASCII text
+    if case[0] == 41 and case[1] == 11:
+        # WKS protocol / service names go to the system's databases (socket.getprotobyname / getservbyname)
+        try:
+            tk = dns.tokenizer.Tokenizer(dec(case[2]))
+            vals = []
+            while True:
+                t = tk.get().unescape()
+                if t.is_eol_or_eof():
+                    break
+                vals.append(t.value)
+            if any(not (v.isdecimal() and v.isascii()) for v in vals[1:]):
+                return False
+        except Exception:  # noqa
+            return False
     if case[0] == 41:
         text = dec(case[2])
         # names go through the IDNA codec when the text is not ASCII; the generic-syntax branch of a
@@ -957,7 +987,7 @@ def impl(case):
                 if k == "nnr":
                     out.append(nl.labels_of(v))
                     continue
-                if k == "a4":
+                if k in ("a4", "a4s"):
                     v = dns.ipv4.inet_aton(v)
                 elif k == "a6":
                     v = dns.ipv6.inet_aton(v)
